@@ -4,12 +4,12 @@ import json, os, sys
 ROOT = os.path.dirname(os.path.dirname(os.path.abspath(__file__)))
 sys.path.insert(0, os.path.join(ROOT, "lib"))
 from registry import PROPS, MANIFEST_TEXT as TEXT
-from manifest_text import NOT_YET, HOOK_COMMITS
+from manifest_text import NOT_YET, HOOK_COMMITS, CLAIMED
 
 ALL = ["C%02d" % i for i in range(1, 20)]
 checks = []
 for pid in ALL:
-    if pid not in PROPS:
+    if pid not in PROPS or pid not in CLAIMED:
         continue
     t = TEXT[pid]
     checks.append({
@@ -40,7 +40,7 @@ m = {
     }],
     "checks": checks,
     "not_applicable": [{"property_id": p, "reason": NOT_YET.get(p, "check not built yet in this session; the design (DESIGN.md section 7) applies and it will be claimed once its model, theorems and correspondence exist")}
-                       for p in ALL if p not in PROPS],
+                       for p in ALL if p not in PROPS or p not in CLAIMED],
     "notes": "All commands run with cwd=/verif. ./check honours VERIF_SEED and VERIF_TIER. Exit 1 only with a VIOLATION line; KNOWN-FINDING lines (known_findings.json) exit 0.",
 }
 json.dump(m, open(os.path.join(ROOT, "MANIFEST.json"), "w"), indent=1)
